@@ -14,7 +14,7 @@ def run(rep, tier, seed):
     k3check.run_crash(rep, 'C05', tier, seed, ['written', 'min', 'torn', 'dirahead'], nh, nops, mp, OPTS, known_sig=known_sig, nested=(25 if tier == 'quick' else 6))
     # clean (crash-free) reopen cycles over long log/MANIFEST-reuse histories must succeed as well
     import k2check, histgen
-    k2check.run_k2(rep, 'C05', tier, seed, 'c01', 2 if tier == 'quick' else 40, 60, fixed={'reuse_logs': 1}, extra_histories=histgen.corpus_histories()[-3:])
+    k2check.run_k2(rep, 'C05', tier, seed, 'c01', 2 if tier == 'quick' else 40, 60, fixed={'reuse_logs': 1}, extra_histories=[histgen.corpus_histories()[i] for i in (3, 4, -1)])
     rep.cov['rule'] = ('every crash image of C02/C03 (byte-exact, minimal, torn, dir-ahead) at sampled syscall boundaries: real ldb_open must '
                        'succeed, contents must be the in-order application of whole batches dropping at most a tail per log segment, and a '
                        'follow-up workload (writes, delete, flush, clean reopen) must take precedence and persist')
